@@ -196,6 +196,9 @@ func runC14(c *core.Ctx) {
 	// used afterwards (= C20 R20a), otherwise two goroutines share one VM
 	c20VMPool(c, "R14e")
 	poolTypestate(c, "R14e")
+	if r12 := resolveC12(c); r12 != nil {
+		runR12eAs(c, r12, c.RepoFunctions(), "R14d") // no node is released twice: another transform may own it by then
+	}
 	c.Floor("R14e", 7, "VM pool discipline")
 }
 
@@ -491,8 +494,11 @@ func c14Globals(c *core.Ctx, e *entrySets, runFns []*ssa.Function, rule string) 
 func c14ObjectUses(c *core.Ctx, f *ssa.Function, load *ssa.UnOp, g *ssa.Global, rule string) {
 	t := load.Type()
 	n := core.NamedOf(t)
-	if _, isPtr := t.Underlying().(*types.Pointer); !isPtr || n == nil {
-		return // plain data (bool, string, slice, map, func): reads are fine given init-only writers
+	_, isPtr := t.Underlying().(*types.Pointer)
+	it, isIface := t.Underlying().(*types.Interface)
+	statefulIface := isIface && !types.Identical(t, types.Universe.Lookup("error").Type()) && it.NumMethods() > 0
+	if !((isPtr && n != nil) || statefulIface) {
+		return // plain data (bool, string, slice, map, func, error sentinel): reads are fine given init-only writers
 	}
 	for _, u := range core.Referrers(load) {
 		ci, ok := u.(ssa.CallInstruction)
